@@ -252,13 +252,20 @@ class Gen:
             used.add(c)
             self.items.append((len(self.items), c, None))
             self.lines.append(f'proc {enc(self.pick(self.cls_names[c]))} {self.args_tokens(clean)}')
-        ids = set()
-        for _ in range(r.choice([0, 1, 2, 2, 3, 4])):
+        ids, held = set(), set()
+        # now and then the description imposes the very identifiers the world's generator starts with
+        # (1, 2[, 3]) and then lists entities without one: those must get identifiers of their own
+        forced = ['i1', 'i2', 'i3'][:r.randint(2, 3)] + ['-'] if self.comps and r.random() < 0.15 else []
+        r.shuffle(forced) if forced and r.random() < 0.2 else None
+        for n_ent in range(max(len(forced), r.choice([0, 1, 2, 2, 3, 4]))):
             k = r.random()
-            if k < 0.5:
+            if n_ent < len(forced):
+                idtok = forced[n_ent]
+            elif k < 0.5:
                 idtok = '-'
             elif k < 0.75:
-                idtok = 'i%d' % self.pick([0, -1, -7, 100, 101, 2 ** 40] + ([1, 2, 3] if ill else []))
+                # (small ones are identifiers the world's own generator would hand out: it must step over them)
+                idtok = 'i%d' % self.pick([0, -1, -7, 100, 101, 2 ** 40, 1, 2, 2, 3])
             else:
                 idtok = 's' + enc(self.pick(['0', '1', 'string id', 'string id 2', '', 'a/b', '${x}']))
             if idtok in ids and not ill:
@@ -266,10 +273,14 @@ class Gen:
             if idtok != '-':
                 ids.add(idtok)
             self.lines.append(f'ent {idtok}')
+            comps = r.sample(self.comps, r.randint(1 if n_ent < len(forced) else 0, min(3, len(self.comps))))
             if idtok == '-':
                 auto += 1
+                while auto in held:
+                    auto += 1
             ent_tok = f'i{auto}' if idtok == '-' else idtok
-            comps = r.sample(self.comps, r.randint(0, min(3, len(self.comps))))
+            if comps and ent_tok[0] == 'i':
+                held.add(int(ent_tok[1:]))
             # the same type twice in one create_entity call: only for classes that are not handlers
             # (a shadowed handler instance is dropped by the garbage collector, C10's subject)
             plain = [c for c in comps if self.events[c] is None]
@@ -281,6 +292,10 @@ class Gen:
             while idtok == '-' and r.random() < 0.12:
                 # the same entity dictionary listed again (a prototype used several times)
                 auto += 1
+                while auto in held:
+                    auto += 1
+                if comps:
+                    held.add(auto)
                 for c in comps:
                     self.items.append((len(self.items), c, f'i{auto}'))
                 self.lines.append('ent same')
